@@ -258,8 +258,9 @@ impl<'a> Model<'a> {
                 if it.is_empty() {
                     return Err(format!("initial of {} unresolved", self.st[s].id));
                 }
-                if it.iter().any(|x| self.is_history(*x)) {
-                    return Err("initial targets a history".into());
+                // an initial transition may target a history pseudo-state of the state itself (W3C test 579)
+                if it.iter().any(|x| self.is_history(*x) && self.st[*x].parent != Some(s)) {
+                    return Err("initial targets a history of another state".into());
                 }
                 if !self.legal_spec(&it, Some(s)) {
                     return Err(format!("initial of {} not legal", self.st[s].id));
